@@ -89,6 +89,13 @@ func plan(seed int64, tier string) []vrt.Case {
 	for lo := 0; lo < nAlign; lo += 400 {
 		add(fmt.Sprintf("align-%d", lo), params{Kind: "align", Lo: lo, Hi: min(lo+400, nAlign), N: nAlign, Full: tier == "thorough"})
 	}
+	nConc := 8
+	if tier == "thorough" {
+		nConc = 240
+	}
+	for i := 0; i < nConc; i++ {
+		add(fmt.Sprintf("concurrent-%d", i), params{Kind: "concurrent", Lo: i, N: 40})
+	}
 	for _, r := range lzwork.ShortRanges("ab", ab, batch, "") {
 		add(rangeID("short", r), params{Kind: "short", Range: &r})
 	}
@@ -500,6 +507,31 @@ func run(cs vrt.Case) vrt.Obs {
 		c.runLong(p)
 	case "rebuild", "align":
 		c.runRebuild(p)
+	case "concurrent":
+		// four goroutines compress and decompress different inputs at the same time (several sessions of one
+		// program): every one of them must get its own input back
+		vrt.Parallel(&o, 4, func(g int, po *vrt.Obs) {
+			cc := &ctx{o: po, seed: p.Seed}
+			r := vrt.Rand(p.Seed, "c06-concurrent", p.Lo, g)
+			for i := 0; i < p.N; i++ {
+				sp := lzwork.RandomSpec(r)
+				sp.Size %= 70001
+				in := sp.Bytes()
+				crc := (i+g)%2 == 0
+				po.Evals++
+				po.Count("inputs_compressed_while_other_goroutines_were_at_work", 1)
+				whole, ok := cc.compress(sp.String(), in, crc, nil, "whole")
+				if !ok {
+					continue
+				}
+				po.Evals++
+				cc.roundTrip(sp.String(), in, whole, crc, lzwork.Sources[(i+g)%len(lzwork.Sources)], lzwork.PickReadPlan(uint64(i+3*g), p.Seed))
+				if len(in) > 0 {
+					po.Sig("conc|%d|%x", len(in), hashOf(in))
+				}
+			}
+		})
+		o.Sample = map[string]any{"kind": "concurrent", "goroutines": 4, "inputs_per_goroutine": p.N}
 	default:
 		panic("c06: unknown case kind " + p.Kind)
 	}
